@@ -87,7 +87,9 @@ func (root *Root) ResolveExecutable(
 		for _, vd := range op.Variables {
 			opVars[vd.Name] = vd.Default
 			if vars != nil {
-				if v := vars[vd.Name]; v != nil {
+				// A variable that is provided, even as null, takes precedence
+				// over the default value.
+				if v, has := vars[vd.Name]; has {
 					if ic, _ := vd.Type.(InCoercer); ic != nil { // validated in SDL validation
 						v, err = ic.CoerceIn(v)
 					}
